@@ -24,7 +24,11 @@ def parseInstX (s : String) : Option (InstCfg × Bool) :=
   let mk := fun (n k a cb : Char) (nomm : Bool) => do
     if n != 'i' && n != 'f' then none
     pure (({ float := n == 'f', kind := ← parseKind k, sel := ← parseSel a, cb := cb == '1' } : InstCfg), nomm)
-  match s.toList with
+  -- optional suffixes `@m` (meter: the scopes differ only in version / schema URL / attributes) and `#k` (created with
+  -- the NAME of instrument k, which lives in another meter): the model identifies instruments by their index, scopes and
+  -- names only matter to the harness when it maps the reported (scope, name) back to an index
+  let core := ((s.splitOn "#").headD "").splitOn "@" |>.headD ""
+  match core.toList with
   | [n, k, a, cb] => mk n k a cb false
   | [n, k, a, cb, 'n'] => mk n k a cb true
   | _ => none
@@ -40,6 +44,19 @@ def parseOp : List String → Option Op
   | ["unreg", k] => do pure (.unreg (← parseNat k))
   | ["col"] => some .col
   | _ => none
+
+/-- `ovl`: for each reader, two collections that OVERLAP in time (the first parked in its first callback while the
+second is started).  `pipeline.produce` holds the pipeline lock from before the callbacks until after the last compute
+function, so collections of one reader are atomic and the second one runs after the first: the op is two consecutive
+cycles, the second replaying the same observations (atomicity assumption, tied by the lock-scope listing of
+pipeline.produce in checks/C08.json → extract). -/
+def expandOvl (groups : List (List String)) : List (List String) :=
+  (groups.foldl (fun (acc : List (List String) × List (List String)) g =>
+    match g with
+    | ["ovl"] => (acc.1 ++ [["col"]] ++ acc.2 ++ [["col"]], [])
+    | ["col"] => (acc.1 ++ [g], [])
+    | "obs" :: _ => (acc.1 ++ [g], acc.2 ++ [g])
+    | _ => (acc.1 ++ [g], acc.2)) ([], [])).1
 
 def parseXOp : List String → Option XOp
   | ["cberr"] => some .cberr
@@ -181,7 +198,8 @@ def stepLine (_ : Unit) (toks : List String) : Unit × Option Verdict :=
       let is := isx.map (·.1)
       let noMM := isx.map (·.2)
       let slots := parseSlots sstr
-      let xops ← (splitBar rest).mapM parseXOp
+      let groups := splitBar rest
+      let xops ← (expandOvl groups).mapM parseXOp
       -- a callback error does not affect the data: the oracle and the theorems speak about the history without the
       -- error script (`callback_error_does_not_affect_data`), the error status is compared separately
       let ops := eraseErr xops
@@ -210,6 +228,8 @@ def stepLine (_ : Unit) (toks : List String) : Unit × Option Verdict :=
           tagIf (ops.any fun o => match o with | .unreg _ => true | _ => false) "unregister" ++
           tagIf (model.cycle > 2) "multi-cycle" ++
           tagIf (xmodel.errs.any (·.2.2)) "callback-error" ++
+          tagIf (groups.contains ["ovl"]) "same-reader-overlap" ++
+          tagIf ((istr.splitOn ",").any fun tk => (tk.splitOn "@").length > 1) "several-meters" ++
           tagIf (xops.any fun o => match o with | .cancelAt j => j < is.length | _ => false) "cancel-during-aggregation" ++
           tagIf ((List.range is.length).any fun j => noSumInst is j && model.recs.any fun rc => rc.2.2.any fun st => st.inst == j) "nosum-histogram" ++
           tagIf ((List.range is.length).any fun j => noMM.getD j false && model.recs.any fun rc => rc.2.2.any fun st => st.inst == j && isHistDT st.dt) "nominmax-histogram" ++
